@@ -1492,8 +1492,12 @@ class Compiler:
                     self._emit(OpCode.LOAD_CONST, idx)
                 else:
                     self._compile_expression(prop.key)
-                # Kind (for getters/setters)
-                kind_idx = self._add_constant(prop.kind)
+                # Kind (for getters/setters); `__proto__: v` sets the prototype
+                # only when written as a plain name, not as [expr] or shorthand
+                kind = prop.kind
+                if kind == "init" and (prop.computed or prop.shorthand):
+                    kind = "field"
+                kind_idx = self._add_constant(kind)
                 self._emit(OpCode.LOAD_CONST, kind_idx)
                 # Value
                 self._compile_expression(prop.value)
